@@ -24,11 +24,11 @@ CHECKS = {
                 note="Only syntactically valid heads are judged. Header values are compared after the normalisation the statement prescribes (trim spaces, LF -> space)."),
     "C19": dict(cat="fault_enumeration", design="DESIGN.md §3 C19",
                 technique="runtime monitoring with pause injection: the scripted peer stops at every wire offset; blocked transport reads are compared with the payload available at that point (reference decoder), no clock involved",
-                text="For every pause offset of 18 fixed responses (and sampled offsets of random / > 64 KiB bodies) x segmentation x read size, send() must return once the blank line arrived and every byte the statement calls available must be readable before any transport read reaches the pause; end-of-body must be reported without blocking once the frame is complete, and bodiless responses must read as empty without blocking. write_to() is judged at every pause offset as well (available bytes reach the writer before the transport is asked for more). Followed redirects whose body the server holds back must not block send(). Two requests in flight on real sockets: the one whose response arrived is delivered while the other server is silent.",
+                text="For every pause offset of 18 fixed responses (and sampled offsets of random / > 64 KiB bodies) x segmentation x read size, send() must return once the blank line arrived and every byte the statement calls available must be readable before any transport read reaches the pause; end-of-body must be reported without blocking once the frame is complete, and bodiless responses must read as empty without blocking. write_to() is judged at every pause offset as well (available bytes reach the writer before the transport is asked for more). Followed redirects whose body the server holds back must not block send(). Two requests in flight on real sockets: the one whose response arrived is delivered while the other server is silent. The streaming text reader with 1..3-byte buffers is driven at every pause offset.",
                 note="Logical oracle on the hooked transport: a read at a Pause step is what would block on a real socket. Uncompressed bodies only."),
     "C05": dict(cat="exploration", design="DESIGN.md §3 C05",
                 technique="runtime monitoring under hostile workloads: panic capture, counting-allocator heap bound, read/endless-stream fuel and wall watchdog as always-on monitors over exhaustive small-alphabet strings, mutations and endless streams; crashes attributed per shard process",
-                text="Every string up to length 5 (quick) / 7 (thorough) over a 9-symbol alphabet as head remainder, chunked body and CONNECT reply; mutated valid responses (incl. numeric blow-ups to 2^64 and beyond); 12 endless constructs; declared sizes >= 2^40 -- each driven through send() and every body API to the end plus three reads, while monitors watch for panics/aborts, heap above 256 KiB + 4x bytes seen, spinning at EOF, unbounded pulls from endless streams, more than max_redirections+1 dials, and non-termination. Heads with up to 40 001 distinct fields under limits above them must give Ok or Err.",
+                text="Every string up to length 5 (quick) / 7 (thorough) over a 9-symbol alphabet as head remainder, chunked body and CONNECT reply; mutated valid responses (incl. numeric blow-ups to 2^64 and beyond); 12 endless constructs; declared sizes >= 2^40 -- each driven through send() and every body API to the end plus three reads, while monitors watch for panics/aborts, heap above 256 KiB + 4x bytes seen, spinning at EOF, unbounded pulls from endless streams, more than max_redirections+1 dials, and non-termination. Heads with up to 40 001 distinct fields under limits above them must give Ok or Err. Every returned error is also rendered (Display, Debug, source chain) under the panic monitor.",
                 note="Bounds are engineering bounds (2x the documented limit + one buffer); the wall watchdog is inconclusive unless reproduced alone. Memory safety of dependencies is addressed only as far as Miri/valgrind passes reach (see DESIGN.md)."),
     "C06": dict(cat="fault_enumeration", design="DESIGN.md §3 C06",
                 technique="runtime monitoring with fault injection: reference encoders (flate2 levels 0-9, hand-written stored/fixed-Huffman encoder, gzip header options) produce the streams; every truncation offset and every trailer bit flip is served; payload is the prefix oracle after every read",
@@ -40,11 +40,11 @@ CHECKS = {
                 note="encoding_rs (the library the crate itself uses) is the decoding oracle: what is checked is the choice of charset, totality and chunking independence, not encoding_rs's tables."),
     "C07": dict(cat="exploration", design="DESIGN.md §3 C07",
                 technique="runtime monitoring of the bytes received by the scripted peer: independent strict request parser (cross-checked with httparse), de-chunking reference decoder and a value model of the builder calls as oracle, over generated builder programs and custom Body programs with write faults",
-                text="Generated programs of builder calls and user-defined streaming bodies (arbitrary sequences of write/write_all/flush/empty write/write_vectored, BufWriter-wrapped or not) are sent; the bytes on the connection must decode as exactly one request whose method, percent-decoded path, query pairs, per-name header lists, credentials and de-framed body equal the inputs, with consistent framing and exactly one Connection: close, under short-write and Interrupted schedules. A request written after a send that failed mid-write on the same thread is judged the same way. A body source that fails part-way must make send() fail without the truncated body being sealed as a complete request. A quarter of the requests come from a Session with set/appended default fields.",
+                text="Generated programs of builder calls and user-defined streaming bodies (arbitrary sequences of write/write_all/flush/empty write/write_vectored, BufWriter-wrapped or not) are sent; the bytes on the connection must decode as exactly one request whose method, percent-decoded path, query pairs, per-name header lists, credentials and de-framed body equal the inputs, with consistent framing and exactly one Connection: close, under short-write and Interrupted schedules. A request written after a send that failed mid-write on the same thread is judged the same way. A body source that fails part-way must make send() fail without the truncated body being sealed as a complete request. A quarter of the requests come from a Session with set/appended default fields. Run a second time against the library built without compression support.",
                 note="Trusts the harness's request parser / value model (written from the documentation of the builder methods). Host is judged by C08; multipart part decoding by C15."),
     "C08": dict(cat="exploration", design="DESIGN.md §3 C08",
                 technique="runtime monitoring over a bounded-exhaustive configuration matrix: dial log of hook H1 plus the request bytes received by the peer (decrypted by a live TLS server behind the scripted CONNECT reply for tunnelled rows), reference decision function as oracle",
-                text="All 27 648 combinations of scheme, host kind (domain/IDN/IPv4/IPv6), port form, path, query, fragment, URL userinfo, proxy kind, proxy userinfo/port and caller-set Host are sent; the address handed to the connector and the request target / Host field seen by the peer must equal what the reference function derives from the statement. Caller-supplied Host fields (none, one, two, session + appended) are all replaced by the one computed Host; redirect Locations with credentials and fragments are judged too. Ports equal to the other scheme's default keep their place in Host.",
+                text="All 27 648 combinations of scheme, host kind (domain/IDN/IPv4/IPv6), port form, path, query, fragment, URL userinfo, proxy kind, proxy userinfo/port and caller-set Host are sent; the address handed to the connector and the request target / Host field seen by the peer must equal what the reference function derives from the statement. Caller-supplied Host fields (none, one, two, session + appended) are all replaced by the one computed Host; redirect Locations with credentials and fragments are judged too. Ports equal to the other scheme's default keep their place in Host. An unreachable proxy makes the request fail (no direct fallback); '@' in path and query.",
                 note="The quick tier runs a stride of the tunnelled rows (each needs a TLS handshake), the thorough tier all of them. The Host field of proxied plain-http requests is recorded, not judged."),
     "C09": dict(cat="exploration", design="DESIGN.md §3 C09",
                 technique="runtime monitoring of request histories: the harness plays the whole web through reactive scripted transports; the walk observed (address dialled + request target per hop) is compared with a simulation of the same table using the harness's own RFC 3986 resolver",
@@ -64,7 +64,7 @@ CHECKS = {
                 note="Part order is not judged. The decoder is the harness's own (unit-tested); content types are compared as parsed Mime values."),
     "C16": dict(cat="exploration", design="DESIGN.md §3 C16",
                 technique="runtime monitoring of operation histories: real objects and a value model executed in lock-step; settings-snapshot hook checked on every live object after every operation, wire probes (headers, redirect bound, header limit, proxy dialled, connector arguments) on every send; objects then spread over concurrently operating threads",
-                text="Random sequences of session/builder operations with colliding values are run against a by-value model; after each operation every live object's snapshot must equal its model, and each send is observed through one wire probe; a second generator hands clones of all sessions to 2..8 barrier-started threads that keep mutating and sending while the parent verifies that the originals never change. A failed send of an unrelated session on the same thread must leave the probed request's bytes untouched.",
+                text="Random sequences of session/builder operations with colliding values are run against a by-value model; after each operation every live object's snapshot must equal its model, and each send is observed through one wire probe; a second generator hands clones of all sessions to 2..8 barrier-started threads that keep mutating and sending while the parent verifies that the originals never change. A failed send of an unrelated session on the same thread must leave the probed request's bytes untouched. Run a second time against the library built without compression support; empty header values are in the domain.",
                 note="Root certificates are only counted. Thread interleavings are those the OS produces; no data race is possible in safe Rust here, the concurrency part checks logical isolation of Arc copy-on-write."),
     "C12": dict(cat="fault_enumeration", design="DESIGN.md §3 C12",
                 technique="runtime monitoring with fault injection on the proxy connection: scripted CONNECT replies (every status, every cut offset, garbage, huge/endless bodies) and a live TLS server spliced in behind 2xx replies; event-order oracle over the transport trace (each write tagged with the reply bytes consumed), marker search in the raw proxy-side bytes, decode of the tunnelled request",
@@ -72,15 +72,15 @@ CHECKS = {
                 note="Quick runs the native-tls flavour, thorough both TLS flavours. IPv6 origins run with certificate checks waived (see DESIGN.md §8)."),
     "C14": dict(cat="exploration", design="DESIGN.md §3 C14",
                 technique="runtime monitoring of real TLS handshakes over loopback against fixture certificates (resolver hook H2 maps the names), exhaustive flag/certificate/path/placement matrix decided by a truth table, under both TLS backends (two harness flavours)",
-                text="Every cell of {CA-anchored, self-signed, unknown issuer, expired} x {name matches, differs} x accept_invalid_certs x accept_invalid_hostnames x root added x {direct, CONNECT through a real loopback proxy, https proxy with nested TLS} x {flags set on session, request, clone} is executed together with a sibling / original request that must stay unaffected; success is allowed only where the truth table allows it (safety), and required for the CA->leaf topology on DNS names or when certificate checks are waived (liveness); a rejected peer must never have received the request. Both native-tls and rustls flavours run in quick and thorough. Also: settings shared with live requests when unrelated setters run, and a self-signed (valid / expired) server certificate added as its own root. URLs with IP-literal hosts (address covered / not covered by the certificate), direct and through a CONNECT proxy. Sibling sessions/requests with different added roots keep their own anchors in both handshake orders.",
+                text="Every cell of {CA-anchored, self-signed, unknown issuer, expired} x {name matches, differs} x accept_invalid_certs x accept_invalid_hostnames x root added x {direct, CONNECT through a real loopback proxy, https proxy with nested TLS} x {flags set on session, request, clone} is executed together with a sibling / original request that must stay unaffected; success is allowed only where the truth table allows it (safety), and required for the CA->leaf topology on DNS names or when certificate checks are waived (liveness); a rejected peer must never have received the request. Both native-tls and rustls flavours run in quick and thorough. Also: settings shared with live requests when unrelated setters run, and a self-signed (valid / expired) server certificate added as its own root. URLs with IP-literal hosts (address covered / not covered by the certificate), direct and through a CONNECT proxy. Sibling sessions/requests with different added roots keep their own anchors in both handshake orders. An impostor chain (own self-signed leaf followed by the genuine certificate) is part of the certificate set.",
                 note="Trusts OpenSSL/rustls to perform the checks they are asked to perform and the fixtures (verified with openssl verify at generation). tls-rustls-native-roots and Windows paths are not run."),
     "C13": dict(cat="fault_enumeration", design="DESIGN.md §3 C13",
                 technique="runtime monitoring with fault injection on real loopback sockets: peers stall or drip at every protocol phase; elapsed-time classes, end-of-body signals and /proc thread/fd counts are the observations; hook H3 forces reader/watchdog interleavings; load probe + retry keep wall-clock verdicts honest",
-                text="Every stall phase (upload, status line, headers, blank line, length/close/chunked body positions, TLS handshake, CONNECT reply, inside the tunnel) x {silent, drip} x four timeout configurations, redirect chains exceeding T in total, converse histories (complete responses with up to five reads after end-of-body) and 24 forced reader/watchdog schedules are executed; the call must end with Err within T (or R) + 1.5 s, never report a cut body as complete, never report a completed response as timed out before the deadline, and leave no thread or descriptor behind. A descriptor-exhaustion fault (0..3 free slots at connect time) must not disable the deadline. R=0 is a boundary row of the timeout table.",
+                text="Every stall phase (upload, status line, headers, blank line, length/close/chunked body positions, TLS handshake, CONNECT reply, inside the tunnel) x {silent, drip} x four timeout configurations, redirect chains exceeding T in total, converse histories (complete responses with up to five reads after end-of-body) and 24 forced reader/watchdog schedules are executed; the call must end with Err within T (or R) + 1.5 s, never report a cut body as complete, never report a completed response as timed out before the deadline, and leave no thread or descriptor behind. A descriptor-exhaustion fault (0..3 free slots at connect time) must not disable the deadline. R=0 is a boundary row of the timeout table. Stale-watchdog scenarios: the watchdog of a dropped request is released while the next request is reading its body.",
                 note="Timing classes are separated by more than an order of magnitude (bound T+1.5 s vs a 20 s hold); a suspect timing on a loaded machine is retried and then reported inconclusive. Connect phase, Windows branches not covered."),
     "C17": dict(cat="exploration", design="DESIGN.md §3 C17",
                 technique="runtime monitoring on real loopback sockets: accept / refuse / black-hole listeners behind a name mapped by resolver hook H2, exhaustive behaviour assignments; listener logs, result and coarse elapsed-time classes compared with a reference racing order",
-                text="Every assignment of {accept, refuse, black-hole} to address lists of 0..3 entries per family, both family orders in the resolver output, four deadline classes (3 198 x 4 cells in thorough, a stride in quick), plus single-address and IP-literal fast paths: the call succeeds iff an address accepts in time, the request arrives at the first acceptor of the order v6[0], v4[0], v6[1], ..., k black-holes before it cost at most k x 200 ms + 1.5 s, all-refuse yields ConnectionRefused, and failures are reported within the attempts' own limits. connect_timeout boundary values up to Duration::MAX. The second connection to a name whose first winner stopped answering is raced afresh.",
+                text="Every assignment of {accept, refuse, black-hole} to address lists of 0..3 entries per family, both family orders in the resolver output, four deadline classes (3 198 x 4 cells in thorough, a stride in quick), plus single-address and IP-literal fast paths: the call succeeds iff an address accepts in time, the request arrives at the first acceptor of the order v6[0], v4[0], v6[1], ..., k black-holes before it cost at most k x 200 ms + 1.5 s, all-refuse yields ConnectionRefused, and failures are reported within the attempts' own limits. connect_timeout boundary values up to Duration::MAX. The second connection to a name whose first winner stopped answering is raced afresh. Refusals with less than a race interval left, and connects after many abandoned attempts.",
                 note="Depends on Linux loopback behaviour (SYN drop on accept-queue overflow, verified by a probe connect per black-hole) and on coarse wall-clock classes; suspect timings are retried after a load probe."),
 }
 
